@@ -2,18 +2,26 @@
 
 Engine E2 (histories, stateless search).  State = (buffer text, virtual time, hidden cache state
 of parso's diff parser and of jedi's derived caches).  Every history of edit/clock events up to
-the tier's depth is replayed (open the base text, then the events) under a path never used before in that process
-(mode `path`) or in the shared path-less slot (mode `none`, where a worker's consecutive
-histories deliberately form one long history).  After EVERY event a new `jedi.Script` is built in
-the same process and only that newest Script is asked the battery (complete, infer, goto, help,
-get_signatures, get_context, get_names, get_references at definitions) at every identifier, call
-slot and line end.
+the tier's depth is replayed from scratch - open the base text, then the events - under a path
+never used before in that process (mode `path`) or in the shared path-less slot (mode `none`,
+where a worker's consecutive histories deliberately form one long history).  After the opening
+and after EVERY event a new `jedi.Script` is built in the same process and only that newest
+Script is asked the battery (complete, infer, goto, help, get_signatures, get_context, get_names,
+get_references at definitions) at every identifier, call slot and line end (c08_battery).
 
-Oracle: the canonical answers of a fresh interpreter process for the text reached (memoised per
-(base, text); c08_battery canonicalises both sides identically, nothing address-like leaks).
-Proviso (mechanical): after each step the incrementally re-parsed tree is compared (get_code()
-and a structural dump) with a from-scratch parse of the same text; a differing step is counted as
-"parso diff-parser divergence", listed in the evidence and NOT judged.
+Oracle: the canonical answers of a fresh interpreter process for the text reached, memoised per
+(base, text) and computed before the histories run (the model in c08_model is pure, so the set
+of reachable texts is known beforehand); both sides are canonicalised by the same code, nothing
+address-like leaks.  A mismatch is re-judged against two single-purpose fresh interpreters
+before it is reported, and shrunk to the single history if that reproduces it alone.
+
+Proviso (mechanical): after each step the tree jedi works on is compared (get_code(), structural
+dump, parent links) with a from-scratch parse of the same text.  If it differs and a shadow
+parso cache entry that was fed the same sequence of texts without jedi differs too, the step is
+counted as "parso diff-parser divergence", listed in the evidence and NOT judged.
+
+Clock: jedi.cache.time and parso.cache.time are one virtual clock object owned by the explorer
+(0 s between Scripts by default; events wait4 / wait601 advance it).
 """
 import hashlib
 import json
@@ -53,7 +61,8 @@ PLANS = {
     'dev': [('depth1/13 events', [(b, 'Q13', 1) for b in _B]),
             ('depth2/core 7 events/funcs', [('funcs', 'CORE7', 2)])],
 }
-ALPHABETS = {'Q13': model.QUICK_ALPHABET, 'CORE7': CORE7, 'CORE5': CORE5, 'ALL28': model.ALL_EVENTS}
+ALPHABETS = {'Q13': model.QUICK_ALPHABET, 'CORE7': CORE7, 'CORE5': CORE5,
+             'ALL28': model.ALL_EVENTS}
 
 
 # ---------------------------------------------------------------------------------------------
@@ -302,7 +311,20 @@ def site_of(key, observed):
 # fresh-process oracle
 # ---------------------------------------------------------------------------------------------
 
-ORACLE_BATCH = max(1, int(os.environ.get('JV_C08_ORACLE_BATCH', '1') or 1))
+# most texts served by one fresh oracle interpreter: quick 12 (each under a never-used path, the
+# path-less slot emptied in between; fewer when one round of NPROC interpreters covers the level),
+# thorough 1 (one interpreter per text); JV_C08_ORACLE_BATCH overrides
+ORACLE_BATCH = {'quick': 12, 'thorough': 1}
+
+
+def oracle_batch(tier):
+    v = os.environ.get('JV_C08_ORACLE_BATCH')
+    return max(1, int(v)) if v else ORACLE_BATCH.get(tier, 1)
+
+
+def _batches(plain, k):
+    k = max(1, min(k, -(-len(plain) // pool.NPROC)))
+    return [plain[i:i + k] for i in range(0, len(plain), k)]
 
 
 def oracle_dir():
@@ -357,16 +379,16 @@ def warm_dir():
 
 def warm_main(dest):
     """python -m jv.props.c08 warm <dir>: write the parso pickles of the stubs every base needs
-    (real clock: parso purges 'inactive' pickles by wall time while it saves new ones)."""
+    (both modes; real clock, so that parso's purge of 'inactive' pickles leaves them alone)."""
     jedi = boot.boot()
     from jedi import settings
     env = boot.environment()
     top = os.path.join(boot.scratch_root(), 'c08-warm-%d' % os.getpid())
     os.makedirs(top)
     for base, text in model.BASES.items():
-        path = os.path.join(top, base + '_w.py')
-        s = jedi.Script(text, path=path, environment=env, project=jedi.Project(top))
-        battery.answers(s, text, top)
+        for path in (os.path.join(top, base + '_w.py'), None):
+            s = jedi.Script(text, path=path, environment=env, project=jedi.Project(top))
+            battery.answers(s, text, top)
     tmp = dest + '.tmp%d' % os.getpid()
     shutil.copytree(settings.cache_directory, tmp)
     os.rename(tmp, dest)
@@ -375,13 +397,18 @@ def warm_main(dest):
 
 
 def copy_warm(src):
+    """Private copy of the warm-up process' stub pickles.  Their timestamps are set to the
+    virtual epoch: parso deletes pickles whose atime is 30 days behind *its* clock whenever it
+    saves a new one, and its clock here is the virtual one."""
     from jedi import settings
     if src and os.path.isdir(src):
         for name in os.listdir(src):
             s = os.path.join(src, name)
             if os.path.isdir(s):
-                shutil.copytree(s, os.path.join(settings.cache_directory, name),
-                                dirs_exist_ok=True)
+                d = os.path.join(settings.cache_directory, name)
+                shutil.copytree(s, d, dirs_exist_ok=True)
+                for f in os.listdir(d):
+                    os.utime(os.path.join(d, f), (T0, T0))
 
 
 def oracle_main(job_path, out_path):
@@ -397,7 +424,7 @@ def oracle_main(job_path, out_path):
     copy_warm(job.get('warm'))   # private copy of the stub pickles written by the warm-up process
     ed = Editor('o')
     items = [(job['base'], job['text'], out_path)]
-    # economy knob (JV_C08_ORACLE_BATCH > 1): further texts served by the same interpreter, each
+    # batch > 1: further texts served by the same interpreter, each
     # under a never-used path, the path-less slot emptied in between
     items += [(b, t, oracle_file(b, t)) for b, t in job.get('more', [])]
     try:
@@ -523,15 +550,14 @@ def _work(task):
 # parent
 # ---------------------------------------------------------------------------------------------
 
-def _run_oracles(ctx, wanted, label):
+def _run_oracles(ctx, wanted, label, batch):
     """wanted: list of oracle jobs; runs them NPROC at a time.  -> number missing."""
     wanted = [w for w in wanted
               if not os.path.exists(oracle_file(w['base'], w['text'], w.get('strict')))]
-    if ORACLE_BATCH > 1:
+    if batch > 1:
         plain = [w for w in wanted if not w.get('strict')]
         wanted = [w for w in wanted if w.get('strict')]
-        for i in range(0, len(plain), ORACLE_BATCH):
-            grp = plain[i:i + ORACLE_BATCH]
+        for grp in _batches(plain, batch):
             head = dict(grp[0])
             head['more'] = [[w['base'], w['text']] for w in grp[1:]]
             wanted.append(head)
@@ -561,6 +587,7 @@ def _strict(ctx, base, text, mode, perturb):
 
 def run(ctx):
     levels = PLANS[os.environ.get('JV_C08_PLAN') or ctx.tier]
+    batch = oracle_batch(ctx.tier)
     t_start = _real_time.time()
     warm = warm_dir()
     env = dict(os.environ)
@@ -605,9 +632,18 @@ def run(ctx):
                     seen_texts.add((base, t))
                     jobs.append({'base': base, 'text': t, 'modes': both, 'warm': warm})
         t1 = _real_time.time()
-        extra = (checks + base_jobs) if li == 0 else []
+        extra = []
+        if li == 0:
+            # cross-check of a batched oracle: the text served LAST by each interpreter of the
+            # first level is also answered by single-purpose fresh interpreters
+            for grp in _batches(base_jobs + jobs, batch) if batch > 1 else []:
+                if len(grp) > 1:
+                    checks += [{'base': grp[-1]['base'], 'text': grp[-1]['text'], 'modes': [m],
+                                'strict': '%s-0' % m} for m in MODES]
+            extra = checks + base_jobs
+            n_oracles += len(checks) - 6
         n_oracles += len(jobs)
-        missing = _run_oracles(ctx, extra + jobs, 'oracles of level ' + lname)
+        missing = _run_oracles(ctx, extra + jobs, 'oracles of level ' + lname, batch)
         t_oracle += _real_time.time() - t1
         if li == 0:
             _self_check(ctx, checks)
@@ -685,7 +721,8 @@ def run(ctx):
                 'result vector) pairs observed after a step',
         'histories_per_mode': modes, 'steps_judged': tot['judged'],
         'distinct_texts': len(seen_texts), 'oracle_jobs': n_oracles,
-        'texts_per_oracle_interpreter': ORACLE_BATCH,
+        'texts_per_oracle_interpreter': batch,
+        'oracle_cross_checks_by_single_purpose_interpreters': len(checks),
         'parso_diff_parser_divergences': len(diverged),
         'parso_divergence_samples': diverged[:10],
         'steps_where_only_jedis_tree_was_wrong(judged)': tot['jedi_tree_wrong'],
@@ -806,12 +843,15 @@ ASSUMPTIONS = [
     'text; the project is that directory.  mode none: path=None, one shared slot per '
     'process; per level a freshly forked worker replays its shard of histories back to back, '
     'path mode first, so its path-less histories form one long history',
-    'oracle: one fresh interpreter per (base, text) answers mode none then mode path; its '
+    'oracle: a fresh interpreter answers, for one (base, text), mode none then mode path; in '
+    'the quick tier it then serves up to 11 further texts, each under a never-used path with '
+    'the path-less slot emptied in between (texts_per_oracle_interpreter; thorough: 1).  Its '
     'cache directory is a private copy of the stub pickles written by a warm-up process '
     '(the buffer itself is never pickled).  The first mismatch of each failure site (up to 4 '
     'sites per run) is re-judged against two single-purpose fresh interpreters (one per (mode, text), '
-    'empty cache directory, the second with a shifted heap); the base texts are '
-    'cross-checked that way on every run',
+    'empty cache directory, the second with a shifted heap); the base texts and the text '
+    'served last by every batched interpreter of the first level are cross-checked that way '
+    'on every run (disagreement = harness error)',
     'proviso: after each step the tree jedi works on is compared (get_code(), structural dump, '
     'parent links) with a from-scratch parse; if it differs AND a shadow parso cache entry fed '
     'the same sequence of texts without jedi differs as well, the step is counted and listed '
